@@ -6,6 +6,7 @@ import (
 	"debug/elf"
 	"errors"
 	"fmt"
+	"strconv"
 	"strings"
 
 	"github.com/google/pprof/internal/binutils"
@@ -18,6 +19,8 @@ import (
 //   hffo     headers fileOffset                            ↦ ok header | err code
 //   objaddr  elf mapping? openOk addrs bias(-1 = none)     ↦ [res...] (base isData)
 //   nm       base syms addrs                               ↦ [name?...]
+//   tooladdr base addr                                     ↦ the addresses written to addr2line / llvm-symbolizer (code, data)
+//   maps     elf mapping bias (thorough, real processes)   ↦ [] (specification-side check only)
 // The loader-driven generators (c13LoaderCases) construct the runtime mapping from the segment
 // layout and a page-aligned bias exactly as the kernel does and ship the bias, so that the Coq
 // side can evaluate the specification "result = address - bias" on the implementation's answer.
@@ -269,6 +272,41 @@ func c13NM(c *Ctx, gen string, base uint64, syms []c13Sym, junk []string, addrs 
 		return L(l...)
 	})
 	c.Case(gen, in, obs, len(syms) > 1 && len(addrs) > 0, "op:nm")
+}
+
+// what the symbolizer tools are asked: address - base, in hex (addr2liner.go:177, addr2liner_llvm.go:177)
+func c13Tool(c *Ctx, gen string, base, addr uint64) {
+	in := L(S("tooladdr"), ZU(base), ZU(addr))
+	obs := c13Guard(func() Term {
+		a, lc, ld, err := binutils.VerifC13ToolInput(base, addr)
+		if err != nil {
+			return L(S("err"), S(err.Error()))
+		}
+		hex := func(s, prefix string) Term {
+			if !strings.HasPrefix(s, prefix) {
+				return L(S("bad-prefix"), S(s))
+			}
+			v, err := strconv.ParseUint(s[len(prefix):], 16, 64)
+			if err != nil {
+				return L(S("bad-hex"), S(s))
+			}
+			return ZU(v)
+		}
+		return L(hex(a, ""), hex(lc, "m 0x"), hex(ld, "m 0x"))
+	})
+	c.Case(gen, in, obs, base != 0 && addr != base, "op:tooladdr")
+}
+
+func c13ToolCases(c *Ctx, n int) {
+	r := c.R
+	for k := 0; k < n; k++ {
+		base := []uint64{0, 0x1000, 0x400000, 0x555555554000, 0x7f0000000000 + uint64(r.Intn(1<<20))*c13Page, c13U64(r)}[r.Intn(6)]
+		addr := base + uint64(r.Intn(1<<24))
+		if r.P(1, 6) {
+			addr = c13U64(r)
+		}
+		c13Tool(c, "tooladdr", base, addr)
+	}
 }
 
 // ---------------------------------------------------------------- layouts
@@ -777,6 +815,7 @@ func runC13(c *Ctx) {
 	c13HFFOCases(c, c.Budget(300, 6000))
 	c13ObjAddrMisc(c, c.Budget(400, 10000))
 	c13NMCases(c, c.Budget(400, 8000))
+	c13ToolCases(c, c.Budget(150, 3000))
 	if c.Tier == "thorough" {
 		c13RealBinaries(c)
 	}
